@@ -603,6 +603,23 @@ gen_region_op (gen_t *g)
     static const int kinds[] = { MOP_R_INIT_RECTS, MOP_R_INIT_RECTS, MOP_R_BINOP, MOP_R_BINOP, MOP_R_BINOP, MOP_R_RECTOP, MOP_R_COPY,
 				 MOP_R_INVERSE, MOP_R_CONV, MOP_R_FINI };
     kind = kinds[rng_n (R, 10)];
+    if (rng_chance (R, 1, 12))
+    {
+	/* a region from a bitmap: needs an a1 image, made on the spot if a slot is free */
+	int slot = -1, fa1 = -1;
+	for (i = 0; i < sim_n_formats; i++) if (sim_formats[i] == PIXMAN_a1) fa1 = i;
+	for (i = 0; i < M_NIMG; i++)
+	    if (g->s[i].used && g->s[i].refs > 0 && g->s[i].kind == MOP_BITS && g->s[i].bpp == 1 && g->s[i].fmt_idx == fa1) slot = i;
+	if (slot < 0 && fa1 >= 0 && (slot = gen_free_slot (g)) >= 0)
+	    gen_bits_exact (g, slot, fa1, (int)rng_range (R, 1, 70), (int)rng_range (R, 1, 10), (int)rng_n (R, 2), 0, (int)rng_n (R, 16), 8 * (int)rng_n (R, 2));
+	if (slot >= 0)
+	{
+	    n = prefix (g, a);
+	    a[n++] = rng_n (R, 2); a[n++] = rng_n (R, M_NREG); a[n++] = slot;
+	    sc_addv (g->sc, MOP_R_FROM_IMAGE, n, a);
+	    return;
+	}
+    }
     a[n++] = rng_n (R, 2);
     switch (kind)
     {
